@@ -48,12 +48,10 @@ fn default_custom_value() -> serde_json::Value {
 
 impl ZervVars {
     fn derive_short_hash(hash: Option<&String>) -> Option<String> {
-        hash.map(|h| {
-            if h.len() >= 8 {
-                h[..8].to_string()
-            } else {
-                h.clone()
-            }
+        // Cut on a character boundary: an overridden hash may contain non-ASCII text
+        hash.map(|h| match h.char_indices().nth(8) {
+            Some((end, _)) => h[..end].to_string(),
+            None => h.clone(),
         })
     }
 
